@@ -324,12 +324,77 @@ def judge_unknown(items, checker, col=None):
 # ----------------------------------------------------------------- shards
 
 
+METHOD_ROUTES = ["inst.m", "subinst.m", "inst.sm", "subinst.sm", "Sub.sm", "subinst.cm", "Sub.cm", "SUBINST.sm", "SUBINST.m", "self.sm-in-sub"]
+
+
+def build_method_module(items):
+    """The same header as an instance method, a static method and a class method of a base class, called through an
+    instance, through an instance of a subclass that inherits them, through the subclass itself, through a
+    module-level subclass instance and as self.sm(...) inside a method of the subclass."""
+    lines, lmap = [], {}
+    for i, (params, calls) in enumerate(items):
+        lines.append(f"class K{i}:")
+        lines.append("    " + header([("po" if any(k == "po" for k, _, _ in params) else "pk", "self", False)] + list(params), "m"))
+        lines.append("    @staticmethod")
+        lines.append("    " + header(params, "sm"))
+        lines.append("    @classmethod")
+        lines.append("    " + header([("po" if any(k == "po" for k, _, _ in params) else "pk", "cls", False)] + list(params), "cm"))
+        lines.append(f"class Sub{i}(K{i}):")
+        lines.append("    def caller(self):")
+        for j, c in enumerate(calls):
+            lines.append(f"        self.sm({c})")
+            lmap[len(lines)] = (i, j, "self.sm-in-sub")
+        lines.append("        pass")
+        lines.append(f"SUBINST{i} = Sub{i}()")
+    for i, (params, calls) in enumerate(items):
+        lines.append(f"def outer{i}(inst: K{i}, subinst: Sub{i}):")
+        for j, c in enumerate(calls):
+            for route in METHOD_ROUTES[:-1]:
+                recv, meth = route.split(".")
+                recv = {"Sub": f"Sub{i}", "SUBINST": f"SUBINST{i}"}.get(recv, recv)
+                lines.append(f"    {recv}.{meth}({c})")
+                lmap[len(lines)] = (i, j, route)
+    return "\n".join(lines) + "\n", lmap
+
+
+def judge_methods(items, checker, col=None):
+    src, lmap = build_method_module([(p, [c for c, _ in calls]) for p, calls in items])
+    res = sut.check_source(src, checker=checker)
+    if res.raised is not None:
+        raise res.raised
+    diagnosed = {d.lineno: d.description for d in res.diags if d.lineno in lmap and d.code == "incompatible_call"}
+    internal = {d.lineno: d.description[-200:] for d in res.diags if d.lineno in lmap and d.code == "internal_error"}
+    fns = [make_fn(p) for p, _ in items]
+    expected, fails = {}, []
+    for line, (i, j, route) in lmap.items():
+        params, calls = items[i]
+        call, feat = calls[j]
+        if (i, j) not in expected:
+            expected[(i, j)] = binds(fns[i], call)
+        ok, diag = expected[(i, j)], line in diagnosed
+        if col is not None:
+            col.case(nontrivial_id=(header(params), call, route) if feat.count("+") >= 1 else None,
+                     label=[f"route:{route}", "agree-accept" if ok and not diag else "agree-reject" if (not ok and diag) else ("FP" if diag else "FN")])
+        if line in internal:
+            fails.append((f"internal-error|{route}|{kinds_key(params)}", f"{header(params)}; {route}({call}): {internal[line]}", params, call))
+            continue
+        if diag == (not ok):
+            continue
+        kind = "FP" if diag else "FN"
+        detail = skeleton(diagnosed[line]) if diag else f"sig={kinds_key(params)}|call={feat}"
+        fails.append((f"{kind}|{route}|{detail}",
+                      f"{header(params)} as a method; {route}({call}): CPython {'binds' if ok else 'raises TypeError'}, "
+                      f"pyanalyze {'reports ' + diagnosed[line] if diag else 'reports nothing'}", params, call))
+    return fails
+
+
 def shards(tier, seed):
     n = 16
     bound = 3 if tier == "quick" else 4
     out = [{"mode": "exhaustive", "index": i, "of": n, "bound": bound} for i in range(n)]
     out += [{"mode": "sampled", "index": i, "examples": 25 if tier == "quick" else 600} for i in range(n)]
     out += [{"mode": "unknown", "index": i, "of": n, "bound": 3 if tier == "quick" else 4} for i in range(n)]
+    out += [{"mode": "methods", "index": i, "of": 8, "bound": 2 if tier == "quick" else 3} for i in range(8)]
     return out
 
 
@@ -365,6 +430,18 @@ def run_shard(spec):
         col.extra["signatures_enumerated"] = len(mine)
         if mine:
             col.sample({"header": header(mine[len(mine) // 2]), "call": "f(" + next(iter(call_shapes(mine[len(mine) // 2])))[0] + ")"})
+        return col.result()
+
+    if mode == "methods":
+        sigs = list(signatures(spec["bound"]))
+        mine = sigs[spec["index"]::spec["of"]]
+        for params in mine:
+            calls = list(call_shapes(params, max_pos=min(3, len(params) + 1), max_kw=2, full=True))
+            for k in range(0, len(calls), 40):
+                _report(col, judge_methods([(params, calls[k:k + 40])], checker, col), {"methods": True})
+            if col.out_of_time():
+                break
+        col.extra["exhaustive_method_routes"] = f"all def headers with <= {spec['bound']} parameters x call-shape set x {len(METHOD_ROUTES)} receiver routes"
         return col.result()
 
     if mode == "unknown":
@@ -422,7 +499,7 @@ def replay_all(case):
             if c == case["call"]:
                 feat = f
                 break
-        fails = judge([(params, [(case["call"], feat)])], checker)
+        fails = (judge_methods if case.get("methods") else judge)([(params, [(case["call"], feat)])], checker)
     return [{"key": k, "what": w, "case": case} for k, w, _, _ in fails]
 
 
